@@ -6,8 +6,8 @@ sequences on real payload sizes 0 .. 70000 over every coding / framing / segment
 """
 from __future__ import annotations
 
-import multiprocessing as mp
 import random
+from concurrent.futures import ThreadPoolExecutor
 
 from . import bodycheck as bc
 from . import bodydrv as bd
@@ -77,48 +77,48 @@ def run(rep):
     sc = "ScC12Tiny" if quick else "ScC12"
     need = ["Read", "ReadNOp", "Read1N", "Read1All", "ReadInto", "Read0", "Stream", "ChunkedOp", "Iter", "Preload",
             "Dispose", "NextRequest"]
-    plans = [("repaired design, intact responses", dict(sc=sc, maxops=3 if quick else 4, _cov=True, _need=need, _workers=8), None),
-             ("deviation D6 exhibited", dict(sc="ScC12Tiny", kd="JustD6", _workers=3), bc.DEFECT_CLAUSES["JustD6"]),
-             ("deviation D7 exhibited", dict(sc="ScC12Tiny", kd="JustD7", _workers=3), bc.DEFECT_CLAUSES["JustD7"]),
+    plans = [("repaired design, intact responses", dict(sc=sc, maxops=3 if quick else 4, _cov=True, _need=need), None),
+             ("deviation D6 exhibited", dict(sc="ScC12Tiny", kd="JustD6"), bc.DEFECT_CLAUSES["JustD6"]),
+             ("deviation D7 exhibited", dict(sc="ScC12Tiny", kd="JustD7"), bc.DEFECT_CLAUSES["JustD7"]),
              ("liveness: every call sequence ends", dict(spec="LiveSpec", sc="ScC12Tiny", amts="A2", amts1="A2", into="A2",
-                                                         gen="A2", maxops=30, after=0, body="PROPERTY Terminates", _workers=3), None)]
-    with mp.Pool(16) as pool:
-        s1 = pool.apply_async(_noop)   # warm the pool while TLC starts
-        from concurrent.futures import ThreadPoolExecutor
-        with ThreadPoolExecutor(2) as tp:
-            f1 = tp.submit(bc.stage1, rep, plans)
-            ekw = dict(sc=sc, maxops=3, amts="A1237", amts1="A27", into="A3", gen="A27") if quick else \
-                dict(sc=sc, maxops=4, amts="A1237", amts1="A27", into="A3", gen="A27")
-            f2 = tp.submit(bc.emit, ekw, 8 if quick else 12)
-            s1.get()
-            # stage 4 leg that needs no emission: seeded random sequences
-            rng = random.Random(rep.seed * 7919 + 12)
-            nrand = 6000 if quick else 250000
-            rruns = [random_run(rng) for _ in range(nrand)]
+                                                         gen="A2", maxops=30, after=0, body="PROPERTY Terminates"), None)]
+    J = bc.JOBS
+    ekw = dict(sc=sc, maxops=3 if quick else 4, amts="A1237", amts1="A27", into="A3", gen="A27")
+    rng = random.Random(rep.seed * 7919 + 12)
+    rruns = [random_run(rng) for _ in range(6000 if quick else 250000)]
+    # probe: stream(amt=None) after a partial sized read on a decoded body (with D6 present this spins forever and is
+    # stopped by a short per-case deadline; with D6 repaired it simply passes)
+    for coding, framing in (("gzip", "cl"), ("zstd", "close")) if quick else (("gzip", "cl"), ("zstd", "close"), ("deflate", "cl")):
+        rruns.append({"case": {"size": 300, "pseed": 4, "coding": coding, "framing": framing, "decode": True, "seg": None},
+                      "ops": [("readn", 7), ("stream", 0)], "drain": ("stream", 0), "preload": False, "deadline": 15.0})
+    with bc.make_pool() as pool, ThreadPoolExecutor(2) as tp:
+        if J > 4:       # stage 1, emission and the random leg overlap
+            f1 = tp.submit(bc.stage1, plans)
+            f2 = tp.submit(bc.emit, ekw, max(2, J // 2))
             bc.run_all(rep, pool, rruns, findings, counters, "random sequences", per=250 if quick else 1000)
             r2, groups, nlines = f2.result()
-            f1.result()
+            bc.account_stage1(rep, f1.result())
+        else:           # small machines / development: one JVM at a time
+            bc.account_stage1(rep, bc.stage1(plans))
+            r2, groups, nlines = bc.emit(ekw, J)
+            bc.run_all(rep, pool, rruns, findings, counters, "random sequences", per=250 if quick else 1000)
         rep.stage1.append({"run": "emission " + sc, "distinct_states": r2.distinct, "states_generated": r2.generated,
                            "depth": r2.depth, "wall_s": round(r2.wall, 1), "behaviours_emitted": nlines,
-                           "op_sequences": len(groups)})
+                           "op_sequences": len(groups) - 1})
         variants = [{"scale": 1, "seg": None, "pseed": 1}] if quick else \
             [{"scale": 1, "seg": None, "pseed": 1}, {"scale": 1, "seg": 1, "pseed": 2, "ext": True},
              {"scale": 3000, "seg": 4096, "pseed": 3}]
         mruns, skipped = bc.runs_from_groups(groups, variants, rep.seed)
-        if len(mruns) + skipped != len(groups) * len(variants) or not mruns:
-            raise tlc.MachineryError(f"emitted {len(groups)} op sequences x {len(variants)} variants but built {len(mruns)} + {skipped}")
+        if len(mruns) + skipped != (len(groups) - 1) * len(variants) or not mruns:
+            raise tlc.MachineryError(f"emitted {len(groups) - 1} op sequences x {len(variants)} variants but built {len(mruns)} + {skipped}")
         done = bc.run_all(rep, pool, mruns, findings, counters, "model op sequences", per=400 if quick else 1500)
         if done + counters["generr"] < len(mruns):
             raise tlc.MachineryError(f"replayed {done} of {len(mruns)} model op sequences")
-    rep.extra["model_op_sequences"] = len(groups)
+    rep.extra["model_op_sequences"] = len(groups) - 1
     rep.extra["model_behaviours"] = nlines
     rep.extra["unrealizable_skipped"] = skipped
     rep.exhaustive = True
     bc.finish(rep, counters)
-
-
-def _noop():
-    return 0
 
 
 def replay(rep, path):
